@@ -1,11 +1,13 @@
 use crate::engine::{Report, Tier};
 
 pub mod c03;
+pub mod c04;
 pub mod c12;
 
 pub fn run(id: &str, tier: Tier) -> Option<Report> {
     Some(match id {
         "C03" => c03::run(tier),
+        "C04" => c04::run(tier),
         "C12" => c12::run(tier),
         _ => return None,
     })
@@ -13,6 +15,7 @@ pub fn run(id: &str, tier: Tier) -> Option<Report> {
 
 pub fn worker(kind: &str) -> ! {
     match kind {
+        "c04" => crate::engine::worker_main(c04::worker_subject),
         _ => {
             eprintln!("unknown worker kind {kind}");
             std::process::exit(2)
@@ -34,6 +37,7 @@ pub fn replay(path: &str) -> i32 {
     let case = &v["case"];
     let res = match id {
         "C03" => c03::replay(case),
+        "C04" => c04::replay(case),
         "C12" => c12::replay(case),
         _ => {
             eprintln!("no replay for property {id}");
